@@ -55,6 +55,7 @@ class Ctx:
         self.tier = tier
         self.prop = prop
         self.repo = Repo(root)
+        self.inlined = inline_fresh_helpers(self.repo)
         resolve_aliases(self.repo)
         self.hier = Hierarchy(self.repo)
         self.summaries = Summaries(self.repo)
@@ -275,10 +276,11 @@ class Ctx:
         """every write site of attribute `attr` in the (non-trio) repository:
         list of (Func|None, module, stmt, kind, value) with kind in assign/aug/del/call:<m>/subscript"""
         out = []
+        dead = getattr(self.repo, "dead_nodes", set())
         for rel, tree in self.repo.non_trio_modules().items():
             if modules and not any(rel.endswith(m) for m in modules):
                 continue
-            for n in ast.walk(tree):
+            for n in _walk_skipping(tree, dead):
                 hit = None
                 if isinstance(n, ast.Attribute) and n.attr == attr:
                     par = getattr(n, "_parent", None)
@@ -306,6 +308,17 @@ class Ctx:
                     out.append((self.repo.func_of(n), rel, st, kind, val, n))
         out.sort(key=lambda t: (t[1], getattr(t[2], "lineno", 0)))
         return out
+
+
+def _walk_skipping(tree, dead):
+    """ast.walk that does not descend into helper definitions whose body was inlined into their only caller"""
+    stack = [tree]
+    while stack:
+        n = stack.pop()
+        if id(n) in dead:
+            continue
+        yield n
+        stack.extend(ast.iter_child_nodes(n))
 
 
 class _AliasSubst(ast.NodeTransformer):
@@ -356,6 +369,196 @@ def _inline_return_temps(fn):
                         continue
                 i += 1
     return changed
+
+
+# ----------------------------------------------------------------------------- inlining of freshly extracted helpers
+_PROTECTED: set | None = None
+
+
+def _protected_names() -> set:
+    """method names the rule modules mention: those are anchors or summarised helpers and are never inlined"""
+    global _PROTECTED
+    if _PROTECTED is None:
+        import re
+        names = set()
+        rd = os.path.join(os.path.dirname(os.path.dirname(os.path.abspath(__file__))), "rules")
+        for fn in os.listdir(rd):
+            if fn.endswith(".py"):
+                with open(os.path.join(rd, fn), encoding="utf-8") as fh:
+                    names |= set(re.findall(r"[A-Za-z_][A-Za-z_0-9]*", fh.read()))
+        _PROTECTED = names
+    return _PROTECTED
+
+
+def _simple_arg(e) -> bool:
+    if isinstance(e, (ast.Name, ast.Constant)):
+        return True
+    if isinstance(e, ast.Attribute):
+        return _simple_arg(e.value)
+    return False
+
+
+class _ParamSubst(ast.NodeTransformer):
+    def __init__(self, mapping, renames):
+        self.mapping, self.renames = mapping, renames
+
+    def visit_Name(self, n):
+        from .source import clone
+        if n.id in self.mapping and isinstance(n.ctx, ast.Load):
+            return clone(self.mapping[n.id])
+        if n.id in self.renames:
+            return ast.copy_location(ast.Name(id=self.renames[n.id], ctx=n.ctx), n)
+        return n
+
+
+def inline_fresh_helpers(repo: Repo, max_rounds: int = 20) -> list[str]:
+    """A private own-class method that is called from exactly one place, is not mentioned by any rule and has a straight
+    shape (no early returns) is what "extract method" produces.  Its body is spliced back into the caller (in the parsed
+    tree only), so that extracting part of an anchored function into a helper is invisible to the rules.  Anything that does
+    not fit the supported shapes is left alone (the call then is an opaque own-method call, as before)."""
+    from .source import clone
+    done: list[str] = []
+    prot = _protected_names()
+    for _ in range(max_rounds):
+        changed = False
+        # occurrences of every attribute name in the non-trio repository
+        occ: dict[str, list] = {}
+        for rel, tree in repo.non_trio_modules().items():
+            for n in ast.walk(tree):
+                if isinstance(n, ast.Attribute):
+                    occ.setdefault(n.attr, []).append(n)
+        for f in list(repo.all_funcs):
+            if f.module.endswith("_trio.py") or f.cls is None or f.parent is not None:
+                continue
+            name = f.node.name
+            if not name.startswith("_") or name.startswith("__") or name in prot or f.node.decorator_list:
+                continue
+            if len(repo.funcs.get(f.qual, [])) != 1:
+                continue
+            sites = occ.get(name, [])
+            if len(sites) != 1:
+                continue
+            at = sites[0]
+            call = getattr(at, "_parent", None)
+            if not (isinstance(call, ast.Call) and call.func is at and isinstance(at.value, ast.Name) and at.value.id == "self"):
+                continue
+            caller = repo.func_of(call)
+            if caller is None or caller.cls != f.cls or caller.node is f.node:
+                continue
+            h = f.node
+            body = [s for s in h.body if not (isinstance(s, ast.Expr) and isinstance(s.value, ast.Constant) and isinstance(s.value.value, str))]
+            if not body or any(isinstance(x, (ast.FunctionDef, ast.AsyncFunctionDef, ast.ClassDef, ast.Lambda, ast.Yield, ast.YieldFrom, ast.Global, ast.Nonlocal))
+                               for s_ in body for x in ast.walk(s_)):
+                continue
+            rets = [x for s_ in body for x in ast.walk(s_) if isinstance(x, ast.Return)]
+            last_ret = body[-1] if isinstance(body[-1], ast.Return) else None
+            if any(r is not last_ret for r in rets):
+                continue
+            # call-site shape
+            outer = call
+            par = getattr(outer, "_parent", None)
+            awaited = isinstance(par, ast.Await)
+            if awaited != isinstance(h, ast.AsyncFunctionDef):
+                continue
+            if awaited:
+                outer, par = par, getattr(par, "_parent", None)
+            st = par
+            if isinstance(st, ast.Expr) and st.value is outer:
+                shape = "expr"
+            elif isinstance(st, ast.Assign) and st.value is outer and len(st.targets) == 1:
+                shape = "assign"
+            elif isinstance(st, ast.AnnAssign) and st.value is outer:
+                shape = "assign"
+            elif isinstance(st, ast.Return) and st.value is outer:
+                shape = "return"
+            else:
+                continue
+            if shape != "expr" and (last_ret is None or last_ret.value is None):
+                continue
+            # parameters
+            a = h.args
+            if a.vararg or a.kwarg or a.posonlyargs and False:
+                continue
+            params = [x.arg for x in a.posonlyargs + a.args][1:]
+            defaults = dict(zip(reversed(params), reversed(a.defaults))) if a.defaults else {}
+            kwonly = {x.arg: d for x, d in zip(a.kwonlyargs, a.kw_defaults)}
+            mapping = {}
+            if len(call.args) > len(params) or any(isinstance(x, ast.Starred) for x in call.args) or any(k.arg is None for k in call.keywords):
+                continue
+            for pn, av in zip(params, call.args):
+                mapping[pn] = av
+            okk = True
+            for k in call.keywords:
+                if k.arg in params or k.arg in kwonly:
+                    mapping[k.arg] = k.value
+                else:
+                    okk = False
+            for pn in params:
+                if pn not in mapping:
+                    if pn in defaults:
+                        mapping[pn] = defaults[pn]
+                    else:
+                        okk = False
+            for pn, d in kwonly.items():
+                if pn not in mapping:
+                    if d is not None:
+                        mapping[pn] = d
+                    else:
+                        okk = False
+            if not okk or not all(_simple_arg(v) for v in mapping.values()):
+                continue
+            stored = {x.id for s_ in body for x in ast.walk(s_) if isinstance(x, ast.Name) and isinstance(x.ctx, (ast.Store, ast.Del))}
+            stored |= {hh.name for s_ in body for hh in ast.walk(s_) if isinstance(hh, ast.ExceptHandler) and hh.name}
+            if stored & set(mapping):
+                continue
+            renames = {v: f"{v}__{name.strip('_')}" for v in stored}
+            new = []
+            for s_ in body:
+                c = clone(s_)
+                for hh in ast.walk(c):
+                    if isinstance(hh, ast.ExceptHandler) and hh.name in renames:
+                        hh.name = renames[hh.name]
+                new.append(_ParamSubst(mapping, renames).visit(c))
+            tail = None
+            if isinstance(new[-1], ast.Return):
+                tail = new.pop()
+            if shape == "expr":
+                if tail is not None and tail.value is not None and not isinstance(tail.value, (ast.Name, ast.Constant)):
+                    new.append(ast.copy_location(ast.Expr(tail.value), tail))
+            elif shape == "assign":
+                repl = clone(st)
+                repl.value = tail.value
+                new.append(ast.copy_location(repl, tail))
+            elif shape == "return":
+                new.append(ast.copy_location(ast.Return(tail.value), tail))
+            # splice
+            holder = getattr(st, "_parent", None)
+            spliced = False
+            for fld in ("body", "orelse", "finalbody"):
+                blk = getattr(holder, fld, None)
+                if isinstance(blk, list) and st in blk:
+                    i = blk.index(st)
+                    blk[i:i + 1] = new or [ast.copy_location(ast.Pass(), st)]
+                    spliced = True
+                    break
+            if not spliced:
+                continue
+            for par_ in ast.walk(caller.node):
+                for ch in ast.iter_child_nodes(par_):
+                    ch._parent = par_
+            done.append(f"{f.qual} -> {caller.qual}")
+            # the helper's own definition is dead code now (its only call site was replaced by its body)
+            dead = getattr(repo, "dead_nodes", None)
+            if dead is None:
+                dead = repo.dead_nodes = set()
+            dead.add(id(h))
+            repo.all_funcs = [x for x in repo.all_funcs if x is not f and x.parent is not f]
+            repo.funcs[f.qual] = [x for x in repo.funcs.get(f.qual, []) if x is not f]
+            changed = True
+            break   # occurrences are stale now: recompute
+        if not changed:
+            break
+    return done
 
 
 def resolve_aliases(repo: Repo):
